@@ -665,6 +665,40 @@ pub fn check(tier: &str, std_bin: &str) -> i32 {
     }
     println!("part 5: {}", sweep_json);
 
+    // ---- assumption monitor: the event-granularity argument needs workers that share no mutable state
+    // outside the wrapped thread/channel operations. Scan the library sources for constructs that
+    // would introduce such state (statics with interior mutability, static mut, thread_local, lazies).
+    let repo = std::env::var("IPT_REPO_DIR").unwrap_or_else(|_| "/repo".to_string());
+    let mut shared_state_sites: Vec<String> = vec![];
+    fn scan(dir: &std::path::Path, out: &mut Vec<String>) {
+        if let Ok(rd) = std::fs::read_dir(dir) {
+            for e in rd.flatten() {
+                let p = e.path();
+                if p.is_dir() {
+                    scan(&p, out);
+                } else if p.extension().map(|x| x == "rs").unwrap_or(false) {
+                    if let Ok(text) = std::fs::read_to_string(&p) {
+                        for (i, line) in text.lines().enumerate() {
+                            let t = line.trim_start();
+                            if t.starts_with("//") {
+                                continue;
+                            }
+                            let is_static = t.starts_with("static ") || t.starts_with("pub static ") || t.starts_with("pub(crate) static ");
+                            let interior = ["Mutex", "RwLock", "Atomic", "Cell", "OnceLock", "OnceCell", "LazyLock", "Lazy<"].iter().any(|k| t.contains(k));
+                            if t.contains("static mut ") || t.contains("thread_local!") || t.contains("lazy_static!") || (is_static && interior) {
+                                out.push(format!("{}:{}: {}", p.display(), i + 1, t));
+                            }
+                        }
+                    }
+                }
+            }
+        }
+    }
+    scan(std::path::Path::new(&format!("{}/src", repo)), &mut shared_state_sites);
+    if !shared_state_sites.is_empty() {
+        println!("ASSUMPTION-WARNING: the library now contains shared mutable state outside the wrapped thread/channel operations; accesses to it are NOT scheduling points of this exploration (interleavings inside them are not covered): {:?}", shared_state_sites);
+    }
+
     // ---- evidence
     let viol = out.violations.load(Ordering::SeqCst);
     let wall = t0.elapsed().as_secs_f64();
@@ -678,6 +712,8 @@ pub fn check(tier: &str, std_bin: &str) -> i32 {
             "transitions": transitions,
             "traces_validated_against_impl": if binding_intact { replayed_total + walked } else { 0 },
             "model_binding_intact": binding_intact,
+            "assumption_no_shared_mutable_state_in_library": shared_state_sites.is_empty(),
+            "shared_mutable_state_sites": shared_state_sites,
             "model_binding_lost_samples": binding_samples,
             "traces_validated_breakdown": {"model_traces_replayed_on_the_real_code": replayed_total, "real_code_traces_accepted_by_the_model": walked},
             "samples": [
